@@ -420,6 +420,53 @@ Proof.
 Qed.
 End PerSample.
 
+(* batches (no reward or one reward for the batch): with the sum reduction each part is the sum over the samples of the
+   part the sample would get alone, with the mean reduction their mean *)
+Section BatchParts.
+Variable c : config RN.
+Variable k : nat.
+Local Notation fp := (fun s => fst (partials RN c k s)).
+Local Notation sp := (fun s => snd (partials RN c k s)).
+
+Lemma single_parts sg : batch_signal sg ->
+  exists a b a' b', (forall st, ov (fst (forward RN c k sg [st])) = a * fp st + b * sp st) /\
+                    (forall st, ov (snd (forward RN c k sg [st])) = a' * fp st + b' * sp st) /\
+                    (forall ss, ov (fst (forward RN c k sg ss)) = a * reduce RN (c_red RN c) (map fp ss) + b * reduce RN (c_red RN c) (map sp ss)) /\
+                    (forall ss, ov (snd (forward RN c k sg ss)) = a' * reduce RN (c_red RN c) (map fp ss) + b' * reduce RN (c_red RN c) (map sp ss)).
+Proof.
+  intros Hs. destruct sg as [|sv g|sv g]; [| |destruct Hs].
+  - exists (ind (nonneg RN (c_lr_post RN c))), (ind (nonneg RN (c_lr_pre RN c))),
+           (ind (negb (nonneg RN (c_lr_post RN c)))), (ind (negb (nonneg RN (c_lr_pre RN c)))).
+    repeat split; intros; [destruct (stdp_parts_none c k [st]) as [E _] | destruct (stdp_parts_none c k [st]) as [_ E]
+                          | destruct (stdp_parts_none c k ss) as [E _] | destruct (stdp_parts_none c k ss) as [_ E]];
+      cbv zeta in E; (etransitivity; [exact E|]); cbn [map]; rewrite ?reduce_single, ?map_map; reflexivity.
+  - exists (ind (nonneg RN (c_lr_post RN c * sv)) * Rabs (sv * g)), (ind (nonneg RN (c_lr_pre RN c * sv)) * Rabs (sv * g)),
+           (ind (negb (nonneg RN (c_lr_post RN c * sv))) * Rabs (sv * g)), (ind (negb (nonneg RN (c_lr_pre RN c * sv))) * Rabs (sv * g)).
+    repeat split; intros; [destruct (stdp_parts_scalar c k sv g [st]) as [E _] | destruct (stdp_parts_scalar c k sv g [st]) as [_ E]
+                          | destruct (stdp_parts_scalar c k sv g ss) as [E _] | destruct (stdp_parts_scalar c k sv g ss) as [_ E]];
+      cbv zeta in E; (etransitivity; [exact E|]); cbn [map]; rewrite ?reduce_single, ?map_map; ring.
+Qed.
+
+Theorem batch_parts_sum sg ss : c_red RN c = RSum -> batch_signal sg ->
+  ov (fst (forward RN c k sg ss)) = rsum (map (fun s => ov (fst (forward RN c k sg [s]))) ss) /\
+  ov (snd (forward RN c k sg ss)) = rsum (map (fun s => ov (snd (forward RN c k sg [s]))) ss).
+Proof.
+  intros Hr Hs. destruct (single_parts sg Hs) as (a & b & a' & b' & S1 & S2 & B1 & B2).
+  rewrite B1, B2, Hr, (map_ext _ _ S1), (map_ext _ _ S2), (reduce_sum (map fp ss)), (reduce_sum (map sp ss)).
+  rewrite (rsum_lin a b fp sp), (rsum_lin a' b' fp sp). split; reflexivity.
+Qed.
+Theorem batch_parts_mean sg ss : c_red RN c = RMean -> batch_signal sg -> ss <> [] ->
+  ov (fst (forward RN c k sg ss)) = rsum (map (fun s => ov (fst (forward RN c k sg [s]))) ss) / INR (length ss) /\
+  ov (snd (forward RN c k sg ss)) = rsum (map (fun s => ov (snd (forward RN c k sg [s]))) ss) / INR (length ss).
+Proof.
+  intros Hr Hs Hne.
+  assert (Hn : INR (length ss) <> 0) by (destruct ss; [congruence|apply not_0_INR; discriminate]).
+  destruct (single_parts sg Hs) as (a & b & a' & b' & S1 & S2 & B1 & B2).
+  rewrite B1, B2, Hr, (map_ext _ _ S1), (map_ext _ _ S2), (reduce_mean (map fp ss)), (reduce_mean (map sp ss)).
+  rewrite (rsum_lin a b fp sp), (rsum_lin a' b' fp sp), !map_length. rn_simpl. split; field; exact Hn.
+Qed.
+End BatchParts.
+
 (* ================================================================== C. whole runs: pair sums of the two parts *)
 Definition pospart (x : R) : R := if Rle_dec 0 x then x else 0.
 Definition negpart (x : R) : R := if Rle_dec 0 x then 0 else x.
